@@ -40,6 +40,23 @@ def scenarios():
             conf_op([P2]),
             {"op": "alloc_ranges", "key": "sts_ns1_db_db-0", "subnet": "10.2.0.0/24", "ranges": [["10.101.0.9"]], "attr": A0},
             conf_op([P2, P1], during_list=nested), {"op": "restart"}]))
+    # a reservation made for a pool (key = the pool's prefix) is handed to a pod of the pool (AllocateInSubnetWithKey re-keys it,
+    # UpdateAttr records the node; the object keeps its reserved label), then the administrator deletes the object: memory and
+    # store must agree afterwards, and a new process must see what the old one saw
+    PK = "pool__p1_dp_ns1_api_api-7f9c-x1"
+    for upd in (False, True):
+        for tail in (["deliver"], ["deliver", "alloc"], []):
+            ops = [conf_op([P2]), {"op": "admin_reserve", "ip": "10.101.0.3", "key": "pool__p1_", "policy": 2}, {"op": "watch_deliver", "ip": "@pending"},
+                   {"op": "alloc_with_key", "old": "pool__p1_", "new": PK, "subnet": "10.2.0.0/24", "attr": {"policy": 2, "node": "", "uid": "uid-x1"}}]
+            if upd:
+                ops.append({"op": "update_attr", "key": PK, "ip": "10.101.0.3", "attr": {"policy": 2, "node": "node2", "uid": "uid-x1"}})
+            ops.append({"op": "admin_unreserve", "ip": "10.101.0.3"})
+            if "deliver" in tail:
+                ops.append({"op": "watch_deliver", "ip": "@pending"})
+            if "alloc" in tail:
+                ops.append({"op": "alloc_ranges", "key": "sts_ns1_web_web-0", "subnet": "10.2.0.0/24", "ranges": [["10.101.0.3"]], "attr": A0})
+            ops += [{"op": "release", "key": PK, "ip": "10.101.0.3"}, {"op": "restart"}, {"op": "watch_deliver", "ip": "@pending"}]
+            S.append(("pool-reservation-handed-to-a-pod-then-deleted:%d:%s" % (upd, "+".join(tail) or "undelivered"), ops))
     # reservation not yet seen: Create conflicts, also in the middle of a multi-IP request (rollback)
     S.append(("unseen-reservation-conflict", [
         conf_op([P2]), {"op": "admin_reserve", "ip": "10.101.0.3", "key": "pool__reserved_", "policy": 2},
@@ -146,12 +163,14 @@ def monitors(steps, focus):
                 ips = [ipamgen.s2ip(ex["ip"])]
             if ips:
                 out.append(("(mon_fresh %s %s %s)" % (conf_trees(conf), cdump(prev), clist(cN(x) for x in ips)), i, "fresh"))
-        if focus == "C09" and prev is not None and k in ("alloc_in_subnet", "alloc_ranges", "alloc_specific"):
-            # an allocation request - failed or not - never removes or rewrites an administrator's reservation object
-            resv = [e for e in prev["store"] if e[5]]
+        if focus in ("C08", "C09") and prev is not None and k in ("alloc_in_subnet", "alloc_ranges", "alloc_specific"):
+            # an allocation request - failed or not - never removes or rewrites an administrator's reservation object (C09), nor
+            # any other object the store held before it (C08: a creation that fails on an existing object is a FAILED creation -
+            # the request is rolled back, the object is not taken over); theorem requests_keep_store_objects
+            resv = [e for e in prev["store"] if e[5] or focus == "C08"]
             now = {e[0]: e for e in d["store"]}
             ok = all(e[0] in now and now[e[0]] == e for e in resv)
-            out.append(("true" if ok else "false", i, "reservations_survive_requests"))
+            out.append(("true" if ok else "false", i, "reservations_survive_requests" if focus == "C09" else "requests_keep_store_objects"))
         nested = o.get("nested")
         if nested and focus == "C09" and nested.get("res") == "ok" and conf is not None:
             # an allocation that was acknowledged while a reload was in progress must survive the reload
